@@ -26,6 +26,24 @@ PROP = {
                      "tlv/truncated.go"],
     "units": [
         {
+            "name": "lnwire", "pkg": "lnwire", "test": "TestVerifC10",
+            "files": ["lnwire/c10_test.go"],
+            "shards": {"quick": 8, "thorough": 16},
+            "fatal_is_violation": True,
+            "floors": {"quick": {"decodes": 1, "accepted": 1, "rejected": 1, "fixpoint_evals": 1,
+                                 "lossless_evals": 1},
+                       "thorough": {"decodes": 1}},
+        },
+        {
+            "name": "lnwire_race", "pkg": "lnwire", "test": "TestVerifC10Race",
+            "files": ["lnwire/c10_test.go"],
+            "tiers": ["thorough"],
+            "race": {"quick": True, "thorough": True},
+            "shards": {"quick": 8, "thorough": 16},
+            "fatal_is_violation": True,
+            "floors": {"thorough": {"decodes": 1, "concurrent_batches": 1}},
+        },
+        {
             "name": "tlv", "module": "tlv", "pkg": ".", "pkgname": "tlv", "test": "TestVerifC10TLV",
             "files": ["tlv/c10tlv_test.go"],
             "shards": {"quick": 4, "thorough": 16},
